@@ -9,6 +9,7 @@ import (
 	"net/http"
 	"strconv"
 	"strings"
+	"sync"
 )
 
 // Request represents single request send via HTTP
@@ -28,6 +29,24 @@ type File interface {
 type Upload struct {
 	File     File
 	FileName string
+
+	mu sync.Mutex
+}
+
+// CopyTo writes the whole file to w. One file can be referenced from several variable paths and be
+// needed by several services at the same time, so it is read from the start on every call
+func (u *Upload) CopyTo(w io.Writer) error {
+	u.mu.Lock()
+	defer u.mu.Unlock()
+
+	if seeker, ok := u.File.(io.Seeker); ok {
+		if _, err := seeker.Seek(0, io.SeekStart); err != nil {
+			return err
+		}
+	}
+
+	_, err := io.Copy(w, u.File)
+	return err
 }
 
 // ParseRequestResponse is an resulting object of ParseRequestQuery.
